@@ -129,6 +129,47 @@ SEEDS = {
         "six or more consecutive failures with the feed called again after it raised once: failures 6..9 are tolerated"),
     "C20c-batched-drain": ("C20", "plain calls are queued in a deque drained by one scheduled callback without try/finally",
         "a burst of plain calls from another thread in which a call that is not the last raises: the rest of the burst and all later plain calls never run"),
+    # ---- round 4 (each agent was told the three earlier changes for its property)
+    "C01d-any-other-acknum-acknowledges": ("C01", "_handle_ack resolves every pending frame n with (ackNum - n) % 8 > 0: any acknowledgement number other than the frame's own acknowledges it",
+        "an acknowledgement number that is neither n nor n+1 while frame n is outstanding; its author needed a stalled frame OVERTAKEN by later ones, which a serial line (FIFO; C01's quantifier: drop, corrupt, duplicate, stall) cannot do -- under C01's line model the host only ever sees n or n+1; it is a violation of C05's 'returns after an acknowledgement covering its frame', where it is caught"),
+    "C02d-ack-number-of-stale-retransmission": ("C02", "the reTx branch of data_frame_received answers ACK(frmNum+1) instead of ACK(expected)",
+        "a CRC-valid DATA frame with reTx=1 whose number is neither the expected one nor expected-1"),
+    "C03d-unstuff-sequential-replace": ("C03", "_unstuff_bytes rewritten with a validating regex and sequential bytes.replace per reserved value",
+        "wire bytes 7D 5D followed by 31, 33, 38 or 3A (an escaped 0x7D followed by a byte that looks like an escape code): decoded one byte short"),
+    "C04d-control-frames-unstuffed": ("C04", "_write_frame stuffs only DATA frames",
+        "NAK(ackNum 0) = A0 54 1A: the CANCEL byte in its CRC goes out unescaped and the peer's receiver discards the frame: the DATA frame gets no answer"),
+    "C05d-error-code-zero-falsy": ("C05", "_enter_failed_state takes the budget reason as a default via `reset_code or ...`",
+        "an ERROR frame whose reset code is 0x00: reported upward (and raised) as 0x51"),
+    "C06d-awaiting-key-minus-one": ("C06", "the pending entry is registered under `self._seq - 1` after the increment modulo 256",
+        "the request that carries sequence number 255: registered under -1, its reply goes to the callbacks and the call times out"),
+    "C07d-keystruct-pad-on-flag": ("C07", "EmberKeyStruct.deserialize pads when the KEY_HAS_PSA_ID bit is set instead of when 24 bytes remain",
+        "getKey / getKeyTableEntry response (v4..v12) whose bitmask has bit 0x0080 set: 12 zero bytes spliced into a complete structure"),
+    "C08d-log-future-exception": ("C08", "the InvalidStateError branch of __call__ logs future.exception()",
+        "a decodable frame under the sequence number of a command that has already timed out or been cancelled: CancelledError escapes the receive entry point"),
+    "C09d-handler-before-gateway": ("C09", "EZSP.connect() creates the v4 handler before the gateway exists (bound to _gw = None)",
+        "a socket:// path whose start-up reset is seen (no EZSP.reset(), so the first version query goes through that handler)"),
+    "C10d-closed-write-dropped": ("C10", "_write_frame silently drops frames on a closed transport instead of raising",
+        "a deliberate close with a command queued behind the one in flight: it runs into the ACK-timeout path and a controller-reset request follows ~13 s later"),
+    "C11d-failure-ignored-while-resetting": ("C11", "Gateway.reset_received ignores non-software codes while a reset is pending",
+        "a non-software RSTACK or an ERROR frame arriving between the RST and the RSTACK / the timeout"),
+    "C12d-pending-registered-late": ("C12", "the pending entry is registered only around the final wait for the confirmation",
+        "the confirmation handled directly behind the send command's response, before send_packet resumes (one serial read)"),
+    "C13d-fragment-option-dropped": ("C13", "_handle_frame drops unicasts whose APS options have the fragment bit (0x8000)",
+        "an incoming unicast whose options word has bit 15 set"),
+    "C14d-mask-widened-by-channel": ("C14", "write_network_info ORs the channel into the channel mask",
+        "a backup whose channel is not in its channel mask"),
+    "C15d-startup-concurrent-subscribe": ("C15", "Multicast.startup re-subscribes with asyncio.gather",
+        "a coordinator listing one group on several endpoints, the group not yet programmed, two free indices, a table write that really suspends"),
+    "C16d-out-of-memory-stops-growing": ("C16", "after one capacity default is rejected with ERROR_OUT_OF_MEMORY the remaining grow-only defaults are skipped",
+        "the NCP reports smaller values and rejects one default with exactly that status"),
+    "C17d-scan-callback-self-removal": ("C17", "the scan callback unregisters itself at completion and the finally skips removal when the future is done",
+        "a scan cancelled between the command response and the completion callback (a cancelled future is done)"),
+    "C18d-network-busy-to-busy": ("C18", "SL_STATUS_MAP maps EmberStatus.NETWORK_BUSY to sl_Status.BUSY",
+        "stack status 0xA1: no longer one of the statuses the send retry loop recognises"),
+    "C19d-clear-only-on-v5-path": ("C19", "the failure count reset moved from the try's else into the end of the non-v4 branch",
+        "EZSP v4: five failures in total with successes in between"),
+    "C20d-gather-without-return-exceptions": ("C20", "EventLoopThread.force_stop gathers the tasks without return_exceptions",
+        "two or more coroutine calls outstanding at the stop, one ending abnormally at once, another needing several loop iterations to unwind: its caller blocks for ever"),
 }
 
 # checks run against each change besides the one of the property it breaks
@@ -138,6 +179,9 @@ ALSO = {
     "C10b-failed-state-dedup": ["C05"], "C11b-counters-zeroed-at-request": ["C04"],
     "C03c-dispatch-on-type-bits": ["C02"], "C04c-error-deduplicated": ["C05"], "C10c-gateway-transport-cleared": ["C11"],
     "C11c-clean-close-swallowed": ["C10"], "C12c-v14-tag-one-byte": ["C07"], "C01c-cancel-returns-frame-number": ["C05"],
+    "C01d-any-other-acknum-acknowledges": ["C05"], "C02d-ack-number-of-stale-retransmission": ["C04"], "C03d-unstuff-sequential-replace": ["C02"],
+    "C04d-control-frames-unstuffed": ["C03"], "C08d-log-future-exception": ["C06"], "C11d-failure-ignored-while-resetting": ["C10"],
+    "C18d-network-busy-to-busy": ["C12"],
 }
 
 
